@@ -68,6 +68,8 @@ AddSubLaw == IsPair => LawAddSub(a, b)
 SubLaw == IsPair => LawSub(a, b)
 SatisfiesLaw == IsPair => LawSatisfies(a, b)
 OrLaw == IsPair => LawOr(a, b)
+\* the reservation law (see MC_Hardware3 for triples) on the instance capacity a, used b, requirement b
+ReservePairs == IsPair => LawReserve(a, b, b)
 AddCommutes == IsPair => \A m \in AllMounts(a, b) : Total(Add(a, b).val.storage, m) = Total(Add(b, a).val.storage, m)
 
 -----------------------------------------------------------------------------
